@@ -376,6 +376,11 @@ def judge(OC, SC, info: Info, o_mod=None, s_mod=None, full=True, count=None):  #
         bad("weakref", "unexpected-weakref" if w[0] == "ok" else "raises:" + w[1], f"weakref.ref(instance): {_kind(w)}, expected {'ok' if exp_weakref else 'TypeError'} (weakref={info.want_weakref}, base provides {base_weakref})")
     elif w[0] == "ok" and w[1]() is not si[0]:
         bad("weakref", "wrong-referent", "weakref.ref(instance)() is not the instance")
+    # the attribute itself: an instance has `__weakref__` exactly when its class (or a base) provides the slot; reading it never raises
+    hw = _obs(hasattr, si[0], "__weakref__")
+    if hw[0] != "ok" or hw[1] != exp_weakref:
+        bad("weakref", "attribute:" + ("raises:" + hw[1] if hw[0] != "ok" else "present" if hw[1] else "absent"),
+            f"hasattr(instance, '__weakref__'): {_kind(hw)}, expected {exp_weakref} (weakref={info.want_weakref}, base provides {base_weakref}); a leftover descriptor of the original class?")
 
     # ---- frozen-ness / attribute assignment (on fresh instances)
     a0 = pats[0][1]
